@@ -340,11 +340,29 @@ def build_part(aa, cls, rng, i, shape=None):
         return Part(cls, aa.Mask2D(mask=m.copy(), pixel_scales=arg), m.copy(), arg, sc, sfam, info={"shape": shfam, "mask": mfam})
     v, vfam = gen_values(rng, H * W, i)
     v = v.reshape(H, W)
+    def came_from_a_file(klass):
+        """The object to write was itself loaded from a .fits file that the library wrote earlier at ANOTHER pixel scale (from_fits
+        takes the scale from the caller): it carries that file's header; what it writes must carry its own, present, pixel scale."""
+        import shutil
+        import tempfile
+        d = tempfile.mkdtemp(prefix="verif_c16_src_")
+        try:
+            path = os.path.join(d, "earlier.fits")
+            klass.no_mask(values=v.copy(), pixel_scales=(0.37, 0.37) if i % 2 else (1.5, 0.25)).output_to_fits(file_path=path, overwrite=True)
+            return klass.from_fits(file_path=path, hdu=0, pixel_scales=arg)
+        finally:
+            shutil.rmtree(d, ignore_errors=True)
     if cls == "Kernel2D":
+        if i % 5 == 4:
+            return Part(cls, came_from_a_file(aa.Kernel2D), v.copy(), arg, sc, sfam,
+                        info={"shape": shfam, "values": vfam + "+loaded_from_an_earlier_file", "mask": "none"})
         return Part(cls, aa.Kernel2D.no_mask(values=v.copy(), pixel_scales=arg), v.copy(), arg, sc, sfam,
                     info={"shape": shfam, "values": vfam, "mask": "none"})
     m, mfam = gen_mask2d(rng, (H, W), i)
-    if mfam == "all_unmasked" and rng.random() < 0.5:
+    if mfam == "all_unmasked" and i % 5 == 4:
+        obj = came_from_a_file(aa.Array2D)
+        vfam = vfam + "+loaded_from_an_earlier_file"
+    elif mfam == "all_unmasked" and rng.random() < 0.5:
         obj = aa.Array2D.no_mask(values=v.copy(), pixel_scales=arg)
     else:
         store_native = bool(rng.random() < 0.5)
